@@ -41,7 +41,7 @@ def run(ctx):
     se.report(ctx, r, args, "C08", also=("C01", "C02", "C10"))
     r = ctx.vh("matrix", {"scenarios": fam, "repeat": ctx.n(1, 5)}, timeout=3000)
     for v in r.get("violations", []):
-        ctx.violation("C06: " + v["what"], {"kind": "matrix", "scenario": v["scenario"], "configs": v["configs"]})
+        ctx.violation("C06: " + v["what"], {"kind": "matrix", "scenario": next((f for f in fam if f["name"] == v["scenario"]), v["scenario"]), "configs": v["configs"]})
     ctx.evaluations += r.get("runs", 0)
     # the committed cache serves the sequential path and the sequential replay: the same destroy / create / re-create
     # histories as single transactions against ParallelState and revm State side by side (readable values after every step)
